@@ -487,7 +487,7 @@ def explore(ctx) -> Exploration:
                                    case={"cfg": small, "element": sd[1], "step": sd[2], "observable": sd[3], "selector": sd[4],
                                          "expected": sd[5], "observed": sd[6],
                                          "disagreement": "code vs specification" if sd[0] == "spec" else "code vs code-shaped model"}))
-    ex.rule = ("boundary stream: every (class, delay in {0,dt,3dt,2.5dt}, interpolation mode, tolerance in {0,dt/4,dt/8}, overbound value/None) "
+    ex.rule = ("corpus (regression inputs of D5, D33) + boundary stream: every (class, delay in {0,dt,3dt,2.5dt}, interpolation mode, tolerance in {0,dt/4,dt/8}, overbound value/None) "
                "with selectors rotating through the families on-grid / between / within-tolerance / at-the-limit / beyond-range / negative; "
                "random stream: shapes up to 3 dims, batch 1-3, delays incl. 0.5dt, 2dt, 4.75dt, bool or 0/1-float spike trains, 0-2 injected "
                "currents, optional clear() mid-run, 1-4 selector columns; one case element = one trajectory (current, spike and all queries "
